@@ -261,3 +261,55 @@ Proof.
   - congruence.
   - congruence.
 Qed.
+
+(* ------------------------------------------------------------------ *)
+(* "State survives": what does NOT survive.  The preparation pauses every context and forgets
+   the batch in flight, but keeps the batch counter.  A ONE-SHOT context whose only batch was in
+   flight at the export comes back Paused with counter 1 and no pending expiry: the imported state
+   violates the shape invariant of one-shot contexts (I_ctx: counter 1 => running with a pending
+   expiry), the consumer can start it (StartRequestContext has no `repeated` test,
+   keeper/invocation.go:264-294) and the next EndBlock issues a SECOND batch for it. *)
+
+(* the imported store, continued with the bank of the prepared state *)
+Definition resume (sp si : State) : State := set_supply (set_bank si (bank sp)) (supply sp).
+
+Definition ex_si : State := import_genesis 20 0 (export_genesis ex_cfg ex_prep).
+Definition ex_resumed : State := resume ex_prep ex_si.
+
+Theorem C19_oneshot_not_preserved_by_import :
+  ReachV ex_cfg ex_state /\ prep_zero_height ex_state = Some ex_prep
+  /\ init_genesis 20 0 (export_genesis ex_cfg ex_prep) = Ok ex_si
+  /\ (exists rc, get (78, 0) (ctxs ex_state) = Some rc /\ c_rep rc = false /\ c_counter rc = 1
+        /\ c_state rc = Running)
+  /\ (exists rc, get (78, 0) (ctxs ex_si) = Some rc /\ c_rep rc = false /\ c_counter rc = 1
+        /\ c_state rc = Paused /\ has (78, 0) (expq_h ex_si) = false)
+  /\ ~ I_ctx ex_cfg ex_resumed
+  (* the consumer starts it; one block later it has a request of batch 2 *)
+  /\ keys (reqs (run ex_cfg ex_resumed [OStart (78, 0) 112 true; OEndBlock 1]))
+     = [((78, 0), 2, 20, 0)].
+Proof.
+  split; [exact reachV_ex_state|]. split; [exact ex_prep_eq|].
+  split; [vm_compute; reflexivity|].
+  split; [eexists; split; [vm_compute; reflexivity|repeat split]|].
+  split; [eexists; split; [vm_compute; reflexivity|repeat split]|].
+  split; [|vm_compute; reflexivity].
+  intros H.
+  assert (G : exists rc, get (78, 0) (ctxs ex_resumed) = Some rc /\ c_rep rc = false /\ c_counter rc = 1
+                /\ c_state rc = Paused /\ has (78, 0) (expq_h ex_resumed) = false).
+  { eexists. split; [vm_compute; reflexivity|repeat split]. }
+  destruct G as (rc & G & Hr & Hc & Hs & He).
+  destruct (H _ _ G) as (_ & _ & _ & _ & _ & H6 & _).
+  destruct (H6 Hr) as [(X & _)|(_ & X & _)]; [lia|congruence].
+Qed.
+
+(* the same reset un-kills: a context killed by its consumer (Completed, kept only until its
+   in-flight batch expires) is Paused after the preparation, i.e. can be started again after the
+   import (ResetRequestContextsStateAndBatch, keeper/invocation.go:1145-1161, sets PAUSED
+   unconditionally) *)
+Theorem C19_prep_unkills s s' c rc : prep_zero_height s = Some s' ->
+  get c (ctxs s) = Some rc -> c_state rc = Completed ->
+  exists rc', get c (ctxs s') = Some rc' /\ c_state rc' = Paused /\ c_counter rc' = c_counter rc.
+Proof.
+  intros E G _. destruct (C19_prep_contexts s s' E) as (_ & Hg & _).
+  exists (reset_ctx rc). rewrite Hg, G. repeat split.
+Qed.
